@@ -125,6 +125,15 @@ func ruleJSAccept(c *Ctx) {
 		case *ssa.Call:
 			g := x.Call.StaticCallee()
 			return g != nil && g.Name() == "PeekKind" && len(x.Call.Args) == 1 && strings.HasSuffix(typeKey(x.Call.Args[0].Type()), "jsontext.Decoder")
+		case *ssa.Extract:
+			// "is there an entry for this kind" in a table that is only read after initialisation
+			if lk, ok := x.Tuple.(*ssa.Lookup); ok && lk.CommaOk && x.Index == 1 {
+				if ld, isLd := lk.X.(*ssa.UnOp); isLd && ld.Op == token.MUL {
+					if g, isG := ld.X.(*ssa.Global); isG && initOnlyGlobals[g] {
+						return peekOnly(lk.Index, d+1)
+					}
+				}
+			}
 		}
 		return false
 	}
